@@ -61,14 +61,13 @@ func verifC06Setup() *verifState {
 	s.nowNs = verifI64("now")
 	verifAssume(s.nowNs >= 0)
 	verifAssume(s.nowNs < verifNTPEraEndNs)
-	now := s.nowNs
 	p := &packetizer{
 		PayloadType: verifU8("pt"),
 		SSRC:        verifU32("ssrc"),
 		Sequencer:   s.seq,
 		Timestamp:   verifU32("ts0"),
 		ClockRate:   verifU32("clockrate"),
-		timegen:     func() time.Time { return time.Unix(0, now) },
+		timegen:     func() time.Time { return time.Unix(0, s.nowNs) },
 	}
 	verifAssume(p.PayloadType <= 127)
 	switch verifCase("payloader", 0, 2) {
@@ -100,7 +99,7 @@ func verifC06Setup() *verifState {
 	return s
 }
 
-func verifC06Packetize(s *verifState, tag string) {
+func verifC06Packetize(s *verifState, tag string) []*Packet {
 	p := s.p
 	var payload []byte
 	if s.g711 {
@@ -167,12 +166,22 @@ func verifC06Packetize(s *verifState, tag string) {
 	if len(pkts) > 1 {
 		verifCover("C06.multi")
 	}
+	return pkts
 }
 
 func VerifC06Train() {
 	s := verifC06Setup()
-	verifC06Packetize(s, "C06.first")
+	first := verifC06Packetize(s, "C06.first")
+	var firstRaw [][]byte
+	for _, pk := range first {
+		raw, _ := pk.Marshal()
+		firstRaw = append(firstRaw, raw)
+	}
 	if verifCase("second-call", 0, 1) == 1 {
+		// the second train is sent at another instant
+		s.nowNs = verifI64("now2")
+		verifAssume(s.nowNs >= 0)
+		verifAssume(s.nowNs < verifNTPEraEndNs)
 		skip := verifU32("skip")
 		ts := s.p.Timestamp
 		s.p.SkipSamples(skip)
@@ -182,8 +191,20 @@ func VerifC06Train() {
 			s.p.EnableAbsSendTime(0)
 			s.absID = 0
 			verifCover("C06.abs-disabled-again")
+		} else if s.absID == 0 && verifCase("enable-abs-send-time-late", 0, 1) == 1 {
+			// switching the extension on after the first frame must be budgeted for
+			s.absID = int(verifU8("abs-id-late"))
+			verifAssume(s.absID >= 1)
+			verifAssume(s.absID <= 14)
+			s.p.EnableAbsSendTime(s.absID)
+			verifCover("C06.abs-enabled-late")
 		}
 		verifC06Packetize(s, "C06.second")
+		// the packets returned by the first call are the caller's: a later call does not change them
+		for i, pk := range first {
+			raw, err := pk.Marshal()
+			verifAssert("C06.first-train-stable", err == nil && verifEqBytes(raw, firstRaw[i]))
+		}
 		verifCover("C06.second-call")
 	}
 	// padding continues the same sequence
